@@ -107,7 +107,7 @@ func c17Families(thorough bool) []c17Member {
 		out = append(out, c17Member{"fibonacci-dag-as-loop-bound", n, sb.String(), ""})
 	}
 	// F2d: DAG as the loop start and as the loop step
-	for _, n := range []int{8, 16, 40, 64} {
+	for _, n := range []int{8, 16, 40, 64, 130, 220} { // beyond 100 levels the SCEV depth guard cuts in
 		for _, where := range []string{"start", "step"} {
 			var sb strings.Builder
 			sb.WriteString(hdr + "func F(a int) int {\n\tx0 := a\n")
@@ -252,6 +252,16 @@ func c17Families(thorough bool) []c17Member {
 		sb.WriteString("\t}\n\treturn t\n}\n")
 		out = append(out, c17Member{"inner-loops-bounded-by-a-doubling-dag", n, sb.String(), ""})
 	}
+	// F6b: ONE long literal used by many calls of one function (what is kept of it counts every time)
+	for _, n := range []int{10, 40, 400, 3000} {
+		var sb strings.Builder
+		sb.WriteString(hdr + "func use(s string) int { return len(s) }\n\nconst banner = \"" + strings.Repeat("Z", 4096) + "\"\n\nfunc F(a int) int {\n\tt := 0\n")
+		for i := 0; i < n; i++ {
+			sb.WriteString("\tt += use(banner)\n")
+		}
+		sb.WriteString("\treturn t + a\n}\n")
+		out = append(out, c17Member{"one-long-literal-used-many-times", n, sb.String(), ""})
+	}
 	// F4: block count up to beyond the size guard
 	for _, n := range []int{500, 1000, 2000, 2600} {
 		var sb strings.Builder
@@ -372,10 +382,11 @@ func TestVerifC17(t *testing.T) {
 		// estimated from the source size (instructions <= 8 per line, loops <= lines)
 		{
 			lines := int64(strings.Count(m.old, "\n") + 1)
+			loopsEst := int64(strings.Count(m.old, "for ")) // an upper estimate of the loops in the source
 			b0 := c17Read()
 			capEquiv.Store(b0.equiv + 50*(2*100*100+4*100*9*lines))
-			capSCEV.Store(b0.scev + 50*60*(8*lines+1)*(lines+1))
-			capRen.Store(b0.renamer + 50*400*(8*lines+1)*(lines+1))
+			capSCEV.Store(b0.scev + 50*60*(8*lines+1)*(loopsEst+1))
+			capRen.Store(b0.renamer + 50*400*(8*lines+1)*(loopsEst+1))
 			curKey.Store(key)
 		}
 		var ms0, ms1 runtime.MemStats
